@@ -26,3 +26,37 @@ package processor
 //@   ensures [exceeds-two-thirds] 3*q > 2*n
 //@   ensures [at-most-n] q <= n
 //@   ensures [intersection] 3*(2*q - n) > n
+
+// ---------------------------------------------------------------- retry / expiry schedule (C14)
+
+// One cleanup tick handles every aggregation entry once (range over the map, deleting only
+// the current key). The clauses below are the transition relation of one entry: old() is the
+// state at the head of the iteration, delta the entry's age read in this iteration.
+//@ pred exhausted(s *vaaState) = (s.ourMsg != nil && s.retryCount >= 14400) || (s.ourMsg == nil && s.retryCount >= 10)
+//@ func (p *Processor) handleCleanup(ctx context.Context)
+//@   props C14
+//@   requires p != nil && p.state != nil && p.state.vaaSignatures != nil && p.db != nil
+//@   requires forall h in dom(p.state.vaaSignatures) :: p.state.vaaSignatures[h] != nil && (p.state.vaaSignatures[h].ourMsg != nil ==> p.state.vaaSignatures[h].ourVAA != nil)
+//@   modifies *
+//@   loop [range p.state.vaaSignatures]:
+//@     invariant [entries] forall h in dom(p.state.vaaSignatures) :: p.state.vaaSignatures[h] != nil && (p.state.vaaSignatures[h].ourMsg != nil ==> p.state.vaaSignatures[h].ourVAA != nil)
+//@     invariant [self] p.state == atEntry(p.state) && p.state.vaaSignatures == atEntry(p.state.vaaSignatures) && p.db == atEntry(p.db)
+//@     iter-ensures [removed-only-if] !indom(p.state.vaaSignatures, hash) ==>
+//@       |    (!old(s.submitted) && old(s.ourVAA) != nil && delta > 30000000000 && stored(p.db, db.idOf(old(s.ourVAA))))
+//@       | || (old(s.submitted) && delta >= 3600000000000)
+//@       | || (!old(s.submitted) && old(exhausted(s)))
+//@       | || (!old(s.submitted) && old(s.ourMsg) == nil && delta >= 300000000000)
+//@     iter-ensures [no-early-discard] !indom(p.state.vaaSignatures, hash) && old(s.ourMsg) != nil && !old(s.submitted) ==> stored(p.db, db.idOf(old(s.ourVAA))) || old(s.retryCount) >= 14400
+//@     iter-ensures [retry-counts-one] s.retryCount != old(s.retryCount) ==> s.retryCount == old(s.retryCount) + 1 && indom(p.state.vaaSignatures, hash)
+//@     iter-ensures [retry-only-own-unsubmitted] s.retryCount != old(s.retryCount) ==> !old(s.submitted) && old(s.ourMsg) != nil
+//@     iter-ensures [retry-only-after-5min] s.retryCount != old(s.retryCount) ==> delta >= 300000000000
+//@     iter-ensures [retry-spacing] s.retryCount != old(s.retryCount) ==> ghostNow() - tns(old(s.lastRetry)) >= 300000000000
+//@     iter-ensures [retry-rebroadcasts] s.retryCount != old(s.retryCount) ==> nsent(p.sendC) == old(nsent(p.sendC)) + 1 && lastsent(p.sendC) == s.ourMsg
+//@     iter-ensures [retry-stamps] s.retryCount != old(s.retryCount) ==> tns(s.lastRetry) <= ghostNow() && tns(s.lastRetry) >= old(ghostNow())
+//@     iter-ensures [no-retry-no-broadcast] s.retryCount == old(s.retryCount) ==> nsent(p.sendC) == old(nsent(p.sendC)) && nsent(p.obsvReqSendC) == old(nsent(p.obsvReqSendC))
+//@     iter-ensures [retry-when-due] old(s.settled) && !old(s.submitted) && old(s.ourMsg) != nil && !old(exhausted(s)) && delta >= 300000000000 && old(ghostNow()) - tns(old(s.lastRetry)) >= 300000000000 && !(old(s.ourVAA) != nil && delta > 30000000000 && stored(p.db, db.idOf(old(s.ourVAA)))) ==> s.retryCount == old(s.retryCount) + 1
+//@     iter-ensures [expire-submitted-when-due] old(s.settled) && old(s.submitted) && delta >= 3600000000000 ==> !indom(p.state.vaaSignatures, hash)
+//@     iter-ensures [expire-exhausted] old(s.settled) && !old(s.submitted) && old(exhausted(s)) ==> !indom(p.state.vaaSignatures, hash)
+//@     iter-ensures [drop-unobserved-when-due] old(s.settled) && !old(s.submitted) && old(s.ourMsg) == nil && delta >= 300000000000 && old(ghostNow()) - tns(old(s.lastRetry)) >= 300000000000 ==> !indom(p.state.vaaSignatures, hash)
+//@     iter-ensures [other-entries-kept] mapUnchangedExcept(p.state.vaaSignatures, hash)
+//@     iter-ensures [other-entries-untouched] unchangedExcept("vaaState.*", s)
